@@ -19,6 +19,7 @@ C16 - event filters form an ordered pipeline; the bundled filters do what they d
 from __future__ import annotations
 
 import asyncio
+import collections
 import itertools
 
 import edzed
@@ -646,7 +647,7 @@ def run_dataedit_pipe(cfg, acc):
 
 FKINDS = ['new', 'newdrop', 'mut', 'mutret', 'true1', 'truestr', 'truelist', 'trueobj',
           'False', 'None', '0', "''", '[]', '()', '0.0', 'empty', 'badkey', 'edit', 'nfu',
-          'delx']
+          'delx', 'chainmap', 'userdict', 'emptyud']
 FALSY = {'False': False, 'None': None, '0': 0, "''": '', '[]': [], '()': (), '0.0': 0.0}
 TRUTHY = {'true1': 1, 'truestr': 'yes', 'truelist': [0], 'trueobj': object()}
 
@@ -693,6 +694,21 @@ def make_filter(kind, pos, seen):
         def f(data):
             logit(data)
             return {}
+        return f, lambda d: ('data', {})
+    if kind == 'chainmap':     # a MutableMapping that is not a dict (documented: "precisely a MutableMapping")
+        def f(data):
+            logit(data)
+            return collections.ChainMap({**data, 'c' + str(pos): pos}, {'unseen': 0})
+        return f, lambda d: ('data', {'unseen': 0, **d, 'c' + str(pos): pos})
+    if kind == 'userdict':
+        def f(data):
+            logit(data)
+            return collections.UserDict({k: v for k, v in data.items() if k != 'x'}, u=pos)
+        return f, lambda d: ('data', {**{k: v for k, v in d.items() if k != 'x'}, 'u': pos})
+    if kind == 'emptyud':
+        def f(data):
+            logit(data)
+            return collections.UserDict()
         return f, lambda d: ('data', {})
     if kind == 'badkey':
         def f(data):
